@@ -67,7 +67,8 @@ fn main() {
         None => vec![],
     };
     // a replay is strict (nothing is filtered); a directed probe filters every listed finding but its own
-    let known: Vec<Known> = if arg(&args, "--replay").is_some() {
+    // (NV_REPLAY_FILTER_KNOWN=1, an investigation aid, replays with the listed findings filtered instead)
+    let known: Vec<Known> = if arg(&args, "--replay").is_some() && std::env::var("NV_REPLAY_FILTER_KNOWN").is_err() {
         vec![]
     } else if let Some(which) = arg(&args, "--probe-known") {
         known.into_iter().map(|mut k| { if k.id == which { k.status = "probe".to_string(); } k }).collect()
